@@ -1,6 +1,7 @@
 package props
 
 import (
+	"os"
 	"bytes"
 	"encoding/base64"
 	"fmt"
@@ -229,13 +230,58 @@ func (c08) Exec(p *Plan, dir string) *Result {
 			n.pending = append(n.pending, t)
 			if p.Policy.Name != "atomic" && a.A == 0 {
 				// the root's check-in arrives while the task is being queued
-				w.Sim.RunSteps(uint64(w.Sim.SchedRand().Intn(120)))
+				w.Sim.RunSteps(uint64(w.Sim.SchedRand().Intn(160)))
+				// fault: the operator's goroutine, wherever it is inside queueing the task, gets no CPU
+				// for a while; meanwhile the first hop fetches what is there and the target answers
+				stalled := w.Sim.StallRunnable()
 				root := nodes[0].d
 				call := w.Send(world.AgentReq{Port: root.Port, URI: root.URI, Headers: root.Hdrs, Body: root.Frame(nil), Peer: root.Peer})
 				w.Sim.Settle()
-				w.Route(root, w.Absorb(root, call))
+				answered, routed := false, false
+				var c2 *simrt.HTTPCall
+				c2Early := false
+				if call.Done && n.d.Parent != nil && a.C%2 == 0 {
+					before := len(n.d.Tasks)
+					routed = true
+					w.Route(root, w.Absorb(root, call))
+					for _, tk := range n.d.Tasks[before:] {
+						if tk.RID == rid {
+							var pb world.PB
+							pb.Int32(uint32(a.D % 100000)).Int32(uint32(a.D % 97))
+							c2 = w.SendUp(n.d, []world.Pkg{{Cmd: world.CmdSleep, RID: rid, Body: pb.B}})
+							c2Early = c2 != nil && c2.Done
+							res.Probe("answer-while-the-task-may-still-be-queueing")
+						}
+					}
+				}
+				w.Sim.Release(stalled)
+				w.Sim.Settle()
+				if c2 != nil {
+					// (it may have had to wait for a lock the stalled goroutine held)
+					answered = c2.Done
+					if c2.Done && !c2Early {
+						w.Route(root, w.Absorb(root, c2))
+					}
+				}
+				if !(call.Done && n.d.Parent != nil && a.C%2 == 0) || !routed {
+					// (the check-in may have had to wait for a lock the stalled goroutine held)
+					w.Route(root, w.Absorb(root, call))
+				}
 				res.Probe("task-overlapping-checkin")
 				fetchAll()
+				if answered && len(res.Violations) == 0 {
+					// the answer belonged to a task that had been handed out: it must have been acted on
+					if ag := w.TS.AgentInstance(int(n.d.ID)); ag != nil && ag.Info.SleepDelay != a.D%100000 {
+						res.Violate("C08", "relayed-callback", "answer-to-delivered-task-dropped", fmt.Sprintf("agent %s (depth %d) answered task rid=%x, which it had just been handed through its parents, and the answer was not acted on (sleep still %d, answered %d)", n.d.NameID(), n.d.Depth(), rid, ag.Info.SleepDelay, a.D%100000), w.Sim)
+					}
+					for i, o := range n.open {
+						if o == rid {
+							n.open = append(n.open[:i], n.open[i+1:]...)
+							break
+						}
+					}
+					n.done = append(n.done, rid)
+				}
 			} else {
 				w.Sim.Settle()
 			}
@@ -286,6 +332,13 @@ func (c08) Exec(p *Plan, dir string) *Result {
 				rid = n.done[0]
 			default:
 				rid = 0x0badf00d
+			}
+			if os.Getenv("VERIF_DEBUG") != "" {
+				ts := ""
+				if ag := w.TS.AgentInstance(int(n.d.ID)); ag != nil {
+					ts = strings.Join(OutstandingIDs(ag), ",")
+				}
+				fmt.Fprintf(os.Stderr, "C08 callback %s node=%s class=%d rid=%x valid=%v open=%x done=%x teamserver-outstanding=[%s]\n", cb.Name, n.d.NameID(), class, rid, valid, n.open, n.done, ts)
 			}
 			wit.Pump()
 			mark := len(wit.Events)
@@ -384,6 +437,33 @@ func (c08) Exec(p *Plan, dir string) *Result {
 					res.Violate("C08", "task-not-delivered", kind, fmt.Sprintf("task rid=%x for agent %s (depth %d) never reached it through its parents", pt.rid, n.d.NameID(), n.d.Depth()), w.Sim)
 				}
 			}
+		}
+	}
+	// finale (preemptive policies): an operator tasks a pivot agent at the moment its parent reports
+	// that the pipe to it is gone. Whichever wins, nothing may panic or hang; routing is not judged
+	// any more after this (the agent is detached)
+	if len(res.Violations) == 0 && !w.Sim.Exited && p.Policy.Name != "atomic" && len(nodes) > 1 {
+		w.Sim.SetAction(len(p.Actions) + 1)
+		x := nodes[1+r.Intn(len(nodes)-1)]
+		for k := 0; k < 1+r.Intn(3); k++ {
+			taskN++
+			wit.Task(x.d.NameID(), fmt.Sprintf("%08x", 0x08100000+taskN), world.CmdSleep, "sleep", map[string]any{"Arguments": "9;9"})
+		}
+		w.Sim.RunSteps(uint64(w.Sim.SchedRand().Intn(200)))
+		var pb world.PB
+		pb.Int32(world.PivotSMBDisconnect).Int32(1).Int32(x.d.ID)
+		frame := x.d.Parent.Frame([]world.Pkg{{Cmd: world.CmdPivot, RID: 0, Body: pb.B}})
+		for q := x.d.Parent; q.Parent != nil; q = q.Parent {
+			var wb world.PB
+			wb.Int32(world.PivotSMBCommand).Bytes(frame)
+			frame = q.Parent.Frame([]world.Pkg{{Cmd: world.CmdPivot, RID: 0, Body: wb.B}})
+		}
+		root := nodes[0].d
+		call := w.Send(world.AgentReq{Port: root.Port, URI: root.URI, Headers: root.Hdrs, Body: frame, Peer: root.Peer})
+		w.Sim.Settle()
+		res.Probe("task-racing-disconnect")
+		if !call.Done && len(w.Sim.Problems) == 0 {
+			res.Violate("C08", "request-stuck", "disconnect-racing-task", fmt.Sprintf("the check-in reporting the disconnect of %s never completed while an operator was tasking that agent", x.d.NameID()), w.Sim)
 		}
 	}
 	res.FP("depth", maxDepth, len(nodes))
